@@ -20,6 +20,7 @@ package engine
 
 //@ func (c *Change) Replace(d, cl) (f, err)
 //@   requires d != nil && c.replacer.NodeReplacer != nil
+//@   requires clOK(cl)
 //@   requires typing: dmap(d)[boxed(global("github.com/uber-go/gopatch/internal/engine.fileMatchKey"))] != nil ==> wfFileMatch(dmap(d)[boxed(global("github.com/uber-go/gopatch/internal/engine.fileMatchKey"))])
 //@   requires recorded-slots-are-current: restructured == noneRestructured()
 //@   at call (engine.FileReplacer).Replace set replFail = replFail + ite(result1 != nil, 1, 0)
@@ -32,6 +33,7 @@ package engine
 
 //@ func NewChangelog() (cl)
 //@   trusted allocates two go-intervals sets (dependency state, not modelled)
+//@   ensures clOK(cl)
 //@   assigns nothing
 
 // ---- matchers (C01, C02, C04) -------------------------------------------------------------------
@@ -779,6 +781,7 @@ package engine
 
 //@ iface Replacer.Replace(d, cl, pos) (v, err)
 //@   requires d != nil
+//@   requires clOK(cl)
 //@   assigns group(ast)
 
 // The replacers mirror the '+' pattern node by node (C03): an absent part is the zero value of its type, a
@@ -838,6 +841,7 @@ package engine
 // file object that was matched (later changes see this change's output).
 //@ func (r FileReplacer) Replace(d, cl) (file, err)
 //@   requires d != nil && r.NodeReplacer != nil
+//@   requires clOK(cl)
 //@   requires typing: dmap(d)[boxed(global("github.com/uber-go/gopatch/internal/engine.fileMatchKey"))] != nil ==> wfFileMatch(dmap(d)[boxed(global("github.com/uber-go/gopatch/internal/engine.fileMatchKey"))])
 //@   at call engine.Replacer.Replace assert [C03] each-site-with-its-own-bindings: arg1 == m.data && arg3 == m.region.Pos
 //@   requires recorded-slots-are-current: restructured == noneRestructured()
@@ -856,6 +860,7 @@ package engine
 // replacer produces (the captured name for a metavariable, the literal name otherwise).
 //@ func (r ImportReplacer) Replace(d, cl, f) (pkgName, err)
 //@   requires d != nil && f != nil
+//@   requires clOK(cl)
 //@   at call engine.Replacer.Replace assert [C11] the-name-is-generated-from-the-same-bindings: arg0 == r.Name && arg1 == d
 //@   at call golang.org/x/tools/go/ast/astutil.AddNamedImport assert [C11] the-import-added-is-the-one-on-the-plus-line: arg1 == f && arg3 == r.Path
 //@   at call golang.org/x/tools/go/ast/astutil.AddNamedImport assert [C11] unnamed-stays-unnamed: r.Name == nil ==> arg2 == ""
@@ -866,6 +871,7 @@ package engine
 // Every '+' import is added, in order, each from the same bindings; a failing one fails the whole change.
 //@ func (r ImportsReplacer) Replace(d, cl, f) (names, err)
 //@   requires d != nil && f != nil
+//@   requires clOK(cl)
 //@   at call (engine.ImportReplacer).Replace assert [C11] every-plus-import-in-order-from-the-same-bindings: arg0 == imp && arg1 == d && arg3 == f
 //@   assigns group(ast), restructured
 //@   loop 0
@@ -875,13 +881,13 @@ package engine
 // empty (the differ reports such regions for the last element of a list); the interval set itself is
 // go-intervals state and not modelled (C17).
 //@ func (c Changelog) Changed(start, end)
-//@   requires typing: c.plus != nil
+//@   requires clOK(c)
 //@   at call (*engine.span).AsSet assert [C17] the-region-is-recorded-as-reported: arg0.Start == start && arg0.End == end
 //@   at call (*github.com/google/go-intervals/intervalset.Set).Add assert [C17] changed-regions-go-to-the-changed-set: arg0 == c.plus
 //@   assigns nothing
 
 //@ func (c Changelog) Unchanged(start, end)
-//@   requires typing: c.minus != nil
+//@   requires clOK(c)
 //@   at call (*engine.span).AsSet assert [C17] the-region-is-recorded-as-reported: arg0.Start == start && arg0.End == end
 //@   at call (*github.com/google/go-intervals/intervalset.Set).Add assert [C17] unchanged-regions-go-to-the-unchanged-set: arg0 == c.minus
 //@   assigns nothing
